@@ -479,12 +479,12 @@ impl BRC20ProgEngine {
 
             core::mem::swap(&mut *db, evm.ctx().db_mut());
 
-            let cumulative_gas_used = self
-                .last_block_info
-                .read()
-                .gas_used
+            // Read the counter once: a second read() while the first guard is still alive deadlocks
+            // as soon as a writer (e.g. clearCaches) queues for the lock in between
+            let block_gas_used = self.last_block_info.read().gas_used;
+            let cumulative_gas_used = block_gas_used
                 .checked_add(output.as_ref().map(|o| o.gas_used()).unwrap_or(0))
-                .unwrap_or(self.last_block_info.read().gas_used);
+                .unwrap_or(block_gas_used);
 
             let traces: TraceED = evm
                 .inspector()
